@@ -86,6 +86,12 @@ def g3(a) -> Generator[int]: ...
 class W:
     from nowhere_to_be_found import init as __init__
 class WC(W): ...
+class CA(CB): ...
+class CB(CA):
+    w: int = 0
+class CC(CB):
+    w2: int = 0
+    def __init__(self, a: int): ...
 '''
 # family A: every annotation text in every place a style reads an annotation from, under every parent
 ANNOTATIONS = ["int", "a.b", "list[int]", "int | None", "await x", "yield", "yield x", "lambda: 0", "x := 1", "*a", "1 +", "not a type", "'quoted'", "f(x)", "a if b else c",
@@ -99,7 +105,9 @@ ANN_TEMPLATES = {
               "Parameters\n----------\na : {A}, default 1\n    desc"],
     "sphinx": [":param a: desc\n:type a: {A}", ":param {A} a: desc", ":returns: desc\n:rtype: {A}", ":raises {A}: desc", ":var v: desc\n:vartype v: {A}", ":ivar {A} v: desc", ":rtype: {A}", ":type a: {A}"],
 }
-PARENTS = ["module-fileless", "function-fileless", "class-fileless", "init-parentless", "none", "module", "class", "function", "init", "property", "function-iter", "function-tuple", "function-gen-tuples", "function-gen-short", "class-init-unresolvable", "class-init-unresolvable-inherited"]
+PARENTS = ["module-fileless", "function-fileless", "class-fileless", "init-parentless", "none", "module", "class", "function", "init", "property", "function-iter", "function-tuple", "function-gen-tuples", "function-gen-short", "class-init-unresolvable", "class-init-unresolvable-inherited",
+           # a class IN an inheritance cycle (the name of its base is re-bound later in the module) and a class hanging off that cycle
+           "class-in-cycle", "class-off-cycle"]
 
 # plan: list of ((tokens over the full alphabet, tokens after a header), option deviations); later entries only add what earlier ones lack
 _PLAN = {"quick": [((2, 2), 1)], "thorough": [((3, 3), 0), ((3, 2), 1), ((2, 2), 2)]}
@@ -173,10 +181,13 @@ def _setup():
 
     from pathlib import Path
 
-    mod = griffe.visit("m", filepath=Path("m.py"), code=PARENT_SRC)
+    coll = griffe.ModulesCollection()
+    mod = griffe.visit("m", filepath=Path("m.py"), code=PARENT_SRC, modules_collection=coll)
+    coll.set_member("m", mod)  # (base classes are looked up through the collection)
     parents = {
         "none": None, "module": mod, "class": mod["K"], "function": mod["f"], "init": mod["K.__init__"], "property": mod["K.prop"],
         "function-iter": mod["g"], "function-tuple": mod["h"], "function-gen-tuples": mod["g2"], "function-gen-short": mod["g3"], "class-init-unresolvable": mod["W"], "class-init-unresolvable-inherited": mod["WC"],
+        "class-in-cycle": mod["CB"], "class-off-cycle": mod["CC"],
     }
     # parents living in a module without a file (what inspection of a built-in / compiled module produces)
     inmem = griffe.Module("inmemory")
